@@ -143,15 +143,17 @@ impl AlphaNode {
     fn evaluate_arithmetic_expr(expr: &str, facts: &TypedFacts) -> Option<FactValue> {
         let expr = expr.trim();
 
-        // Try arithmetic operators in order of precedence (reverse)
-        let ops = ["+", "-", "*", "/", "%"];
+        // Split at the rightmost operator of the lowest precedence class that occurs:
+        // first `+` `-`, then `*` `/` `%` (left-associative, as in `crate::expression`)
+        let classes: [&[char]; 2] = [&['+', '-'], &['*', '/', '%']];
 
-        for op in &ops {
-            if let Some(pos) = expr.rfind(op) {
+        for class in &classes {
+            if let Some(pos) = expr.rfind(|c: char| class.contains(&c)) {
                 // Skip if operator is at the start (negative number)
                 if pos == 0 {
                     continue;
                 }
+                let op = &expr[pos..pos + 1];
 
                 let left = expr[..pos].trim();
                 let right = expr[pos + 1..].trim();
@@ -173,7 +175,7 @@ impl AlphaNode {
                     Self::evaluate_arithmetic_expr(right, facts)?.as_number()?
                 };
 
-                let result = match *op {
+                let result = match op {
                     "+" => left_val + right_val,
                     "-" => left_val - right_val,
                     "*" => left_val * right_val,
